@@ -29,7 +29,11 @@ independence: `copy_closed`, `path_stays_in_copy`, `old_links` (the two sides ar
 `independent_setAttr`, `independent_createProperty`, `independent_create_entity`,
 `independent_append` (a call addressed to one side changes only that side),
 `independent_history` (+ `_observed`, `sideInv_after_copy`, `idInv_after_copy`): **any history** of API
-calls made on the copy's side leaves every node of the destination file as it was,
+calls made on the copy's side leaves every node of the destination file as it was;
+`independent_history_source_side` (+ `independent_history_copy_unchanged`, `sourceSideInv_after_copy`,
+`idInv_source_side`): any history of calls made on the source's side leaves the copy (and the rest of
+the file) exactly as it was — both from one frame theorem for histories on a link-closed side
+(`Lemmas/C20Local`, `C20Hist`, `C20HistDel`: `LocalUpd`, `lu_step`, `lu_run`);
 `independent_delete_old_side` / `independent_delete_new_side` (deletion, when the other side does not
 carry the deleted ids).
 
@@ -51,10 +55,9 @@ Partial / modelled:
   repair (deletion by object, `reports/C20-delete-by-object.*`) the full statement is proved:
   `repaired_delete_old_side` / `repaired_delete_new_side`;
   for copies into another file the two sides are two graphs and no function of one sees the other;
-* `independent_history` is the direction "calls on the copy's side (all entity arguments from that
-  side) do not change the rest of the file"; the converse direction (calls on the source side do not
-  change the copy) is proved per kind of call (`independent_*`), not yet for histories: the source
-  side is not link-closed (the destination container links the copy's root);
+* the history theorems speak about calls whose entity arguments all lie on the side the call is made on
+  (linking an original into the copy, or the copy into the source, is the caller's doing); the source-side
+  theorem needs the destination container and its owner outside the source sub-graph;
 * HDF5's `H5Ocopy` semantics are modelled (`copyNodes`), not verified; dataset *contents* (array
   data, property values, data frames) are outside the graph model (oracle only).
 -/
@@ -804,13 +807,18 @@ theorem new_of_ge (hdst : FileOk dst)
   · have := (destOk_dest hdst owner cls).lt k h; omega
   · exact h
 
+/-- the copy's side: the duplicates and every node created later -/
+def CopySide (dst : Graph) (owner : Nat) (cls : String) : Nat → Prop := fun k => (destG dst owner cls).nextKey ≤ k
+
 /-- the result of a deep copy satisfies the side invariant: the duplicates are closed under links -/
 theorem sideInv_after_copy (hdst : FileOk dst)
     (hc : copyGeneric src dst owner cls obj name false keepId = .ok (g', root)) :
-    SideInv (destG dst owner cls).nextKey dst.nextId g' := by
+    SideInv (CopySide dst owner cls) dst.nextId g' := by
   obtain ⟨_, hg, _⟩ := copyGeneric_ok hc
   refine ⟨?_, ?_, ?_⟩
-  · rw [nextKey_result hc]; omega
+  · intro k hk
+    show (destG dst owner cls).nextKey ≤ k
+    rw [nextKey_result hc] at hk; omega
   · rw [hg, ← nextId_ensureGroup dst owner cls]; exact core_nextId_le
   · intro k hk l hl
     have hnew := new_of_ge hdst hc hk (node?_isSome_of_link hl)
@@ -819,9 +827,9 @@ theorem sideInv_after_copy (hdst : FileOk dst)
 /-- … and, when the ids were regenerated, the ids of the two sides are disjoint -/
 theorem idInv_after_copy (hdst : FileOk dst) (hb : IdsBelow dst)
     (hc : copyGeneric src dst owner cls obj name false false = .ok (g', root)) :
-    IdInv (destG dst owner cls).nextKey dst.nextId g' := by
+    IdInv (CopySide dst owner cls) dst.nextId (fun j => j < dst.nextId) g' := by
   obtain ⟨_, hg, _⟩ := copyGeneric_ok hc
-  constructor
+  refine ⟨fun j hj => by omega, ?_, ?_⟩
   · intro k hk i hi
     have hn : (g'.node? k).isSome := node?_isSome_of_getAttr hi
     obtain ⟨k0, hr, e⟩ := new_of_ge hdst hc hk hn
@@ -833,22 +841,24 @@ theorem idInv_after_copy (hdst : FileOk dst) (hb : IdsBelow dst)
       obtain ⟨n, hn1, hn2, hn3⟩ := hf.2 i0 hs
       rw [hn3] at hi
       simp only [Option.some.injEq] at hi
-      exact ⟨n, hn1, hn2, hi.symm⟩
+      exact ⟨n, hi.symm, by omega⟩
   · intro k hk i hi
+    have hk' : k < (destG dst owner cls).nextKey := Nat.lt_of_not_le hk
     have hself : obj ∈ copySet src obj false := reachFrom_self src obj
-    rw [entityId_eq, hg, core_getAttr_old hself hk] at hi
+    rw [entityId_eq, hg, core_getAttr_old hself hk'] at hi
     unfold destG at hi
     rw [getAttr_ensureGroup] at hi
-    exact hb k i hi
+    obtain ⟨j, hj, e⟩ := hb k i hi
+    exact ⟨j, e, hj⟩
 
-/-- **independent (histories)**: see the section comment. `gd = true` admits global deletions and then
-needs regenerated ids and `IdsBelow dst`. -/
+/-- **independent (histories, copy's side)**: see the section comment. `gd = true` admits global
+deletions and then needs regenerated ids and `IdsBelow dst`. -/
 theorem independent_history (hdst : FileOk dst)
     (hc : copyGeneric src dst owner cls obj name false keepId = .ok (g', root))
     (gd : Bool) (hgd : gd = true → keepId = false ∧ IdsBelow dst) (ops : List Op)
-    (ha : AddressedAll (destG dst owner cls).nextKey gd g' ops) :
-    LocalUpd (destG dst owner cls).nextKey dst.nextId g' (run g' ops) := by
-  apply lu_run ops (sideInv_after_copy hdst hc) _ ha
+    (ha : AddressedAll (CopySide dst owner cls) gd g' ops) :
+    LocalUpd (CopySide dst owner cls) dst.nextId g' (run g' ops) := by
+  apply lu_run (A := fun j => j < dst.nextId) ops (sideInv_after_copy hdst hc) _ ha
   intro h
   obtain ⟨hk, hb⟩ := hgd h
   subst hk
@@ -859,13 +869,156 @@ to old nodes all kept, nothing added, order kept -/
 theorem independent_history_observed (hdst : FileOk dst)
     (hc : copyGeneric src dst owner cls obj name false keepId = .ok (g', root))
     (gd : Bool) (hgd : gd = true → keepId = false ∧ IdsBelow dst) (ops : List Op)
-    (ha : AddressedAll (destG dst owner cls).nextKey gd g' ops) (k : Nat) (hk : IsOld dst owner cls k) :
+    (ha : AddressedAll (CopySide dst owner cls) gd g' ops) (k : Nat) (hk : IsOld dst owner cls k) :
     (∀ a, (run g' ops).getAttr k a = g'.getAttr k a) ∧
     ((run g' ops).links k).Sublist (g'.links k) ∧
     (∀ l ∈ g'.links k, IsOld dst owner cls l.2 → l ∈ (run g' ops).links k) := by
   have h := independent_history hdst hc gd hgd ops ha
-  have hlt := old_lt hdst hk
-  exact ⟨h.attrs k hlt, h.sub k hlt, fun l hl ho => h.keep k hlt l hl (old_lt hdst ho)⟩
+  have hlt : ¬ CopySide dst owner cls k := Nat.not_le_of_lt (old_lt hdst hk)
+  exact ⟨h.attrs k hlt, h.sub k hlt,
+    fun l hl ho => h.keep k hlt l hl (Nat.not_le_of_lt (old_lt hdst ho))⟩
+
+end
+
+/-! ### histories on the source's side (same-file copies)
+
+The converse direction: the *source sub-graph* (what is reachable from the source in the file before
+the copy), together with whatever is created later, is a side too — when the destination container
+and its owner lie outside it (the copy is not placed inside its own source). Any history of calls
+made on it, with entity arguments from it, leaves the copy — and every other node of the file —
+exactly as it was. Entity deletions (global by id) again need disjoint ids: regenerated ids and a
+destination whose ids are pairwise distinct and drawn from its own supply. For a copy into another
+file the source's file is a different graph: no call on it is a function of the copy's file. -/
+
+section
+variable {dst : Graph} {owner obj : Nat} {cls name : String} {keepId : Bool} {g' : Graph} {root : Nat}
+
+/-- the source's side after a same-file copy with result `g'` -/
+def SourceSide (dst : Graph) (obj : Nat) (g' : Graph) : Nat → Prop := fun k => ReachF dst obj k ∨ g'.nextKey ≤ k
+
+/-- ids are pairwise distinct -/
+def IdsDistinct (g : Graph) : Prop := ∀ k k' i, g.entityId k = some i → g.entityId k' = some i → k = k'
+
+theorem reach_keys (hdst : FileOk dst) (hobj : obj ∈ keys dst) {k : Nat} (h : ReachF dst obj k) : k ∈ keys dst := by
+  induction h with
+  | refl => exact hobj
+  | step n _ hl _ => exact hdst.target _ _ hl
+
+/-- nodes of the source sub-graph keep their links through the copy -/
+theorem source_links_kept (hdst : FileOk dst) (ho : owner ∈ keys dst) (hobj : obj ∈ keys dst)
+    (hO : ¬ ReachF dst obj owner) (hC : ¬ ReachF dst obj (destC dst owner cls))
+    (hc : copyGeneric dst dst owner cls obj name false keepId = .ok (g', root)) {k : Nat} (hk : ReachF dst obj k) :
+    g'.links k = dst.links k ∧ ∀ a, g'.getAttr k a = dst.getAttr k a := by
+  have h := source_untouched hdst ho hc k (reach_keys hdst hobj hk)
+  refine ⟨?_, h.1⟩
+  have h1 : ¬ (k = owner ∧ dst.child? owner cls = none) := fun e => hO (e.1 ▸ hk)
+  have h2 : ¬ (k = destC dst owner cls) := fun e => hC (e ▸ hk)
+  rw [h.2.2, if_neg h1, if_neg h2]
+  simp
+
+theorem sourceSideInv_after_copy (hdst : FileOk dst) (ho : owner ∈ keys dst) (hobj : obj ∈ keys dst)
+    (hO : ¬ ReachF dst obj owner) (hC : ¬ ReachF dst obj (destC dst owner cls))
+    (hc : copyGeneric dst dst owner cls obj name false keepId = .ok (g', root)) :
+    SideInv (SourceSide dst obj g') g'.nextId g' := by
+  have hfo := fileOk_copyGeneric hdst ho hc
+  refine ⟨fun k hk => .inr hk, Nat.le_refl _, ?_⟩
+  intro k hk l hl
+  rcases hk with hk | hk
+  · rw [(source_links_kept hdst ho hobj hO hC hc hk).1] at hl
+    exact .inl (.step l.1 hk hl)
+  · have := hfo.lt k ((node?_isSome_iff g' k).mp (node?_isSome_of_link hl))
+    omega
+
+/-- a node of `g'` outside the source's side is an old node outside the source sub-graph, or a duplicate -/
+theorem idInv_source_side (hdst : FileOk dst) (ho : owner ∈ keys dst) (hobj : obj ∈ keys dst)
+    (hb : IdsBelow dst) (hdis : IdsDistinct dst)
+    (hc : copyGeneric dst dst owner cls obj name false false = .ok (g', root)) :
+    IdInv (SourceSide dst obj g') g'.nextId
+      (fun j => ∃ x, ¬ SourceSide dst obj g' x ∧ g'.entityId x = some (idStr j)) g' := by
+  obtain ⟨_, hg, _⟩ := copyGeneric_ok hc
+  have hself : obj ∈ copySet dst obj false := reachFrom_self dst obj
+  -- the id of any node of g': an old id of the same node, or a fresh one of a duplicate
+  have hid : ∀ x i, g'.entityId x = some i →
+      (x < (destG dst owner cls).nextKey ∧ dst.entityId x = some i ∧ ∃ j, j < dst.nextId ∧ i = idStr j) ∨
+      ((destG dst owner cls).nextKey ≤ x ∧ ∃ n, dst.nextId ≤ n ∧ n < g'.nextId ∧ i = idStr n) := by
+    intro x i hi
+    by_cases hx : x < (destG dst owner cls).nextKey
+    · have hi' := hi
+      rw [entityId_eq, hg, core_getAttr_old hself hx] at hi'
+      unfold destG at hi'
+      rw [getAttr_ensureGroup] at hi'
+      exact .inl ⟨hx, hi', hb x i hi'⟩
+    · have hx' : (destG dst owner cls).nextKey ≤ x := Nat.le_of_not_lt hx
+      obtain ⟨k0, hr, e⟩ := new_of_ge hdst hc hx' (node?_isSome_of_getAttr hi)
+      have hf := ids_fresh hdst hc k0 hr
+      rw [e] at hi
+      cases hs : dst.entityId k0 with
+      | none => rw [hf.1 hs] at hi; cases hi
+      | some i0 =>
+        obtain ⟨n, hn1, hn2, hn3⟩ := hf.2 i0 hs
+        rw [hn3] at hi
+        simp only [Option.some.injEq] at hi
+        exact .inr ⟨hx', n, hn1, hn2, hi.symm⟩
+  have hni : dst.nextId ≤ g'.nextId := by
+    rw [hg, ← nextId_ensureGroup dst owner cls]; exact core_nextId_le
+  refine ⟨?_, ?_, ?_⟩
+  · rintro j hj ⟨x, _, hx⟩
+    rcases hid x _ hx with ⟨_, _, j', hj', e⟩ | ⟨_, n, _, hn, e⟩
+    · have := idStr_inj e; omega
+    · have := idStr_inj e; omega
+  · intro k hk i hi
+    rcases hk with hk | hk
+    · have hkk := reach_keys hdst hobj hk
+      have hklt : k < (destG dst owner cls).nextKey :=
+        Nat.lt_of_lt_of_le (hdst.lt k hkk) (nextKey_le_ensureGroup dst owner cls)
+      rcases hid k i hi with ⟨_, hik, j, hj, e⟩ | ⟨h, _⟩
+      · refine ⟨j, e, ?_⟩
+        rintro ⟨x, hxS, hx⟩
+        rcases hid x _ hx with ⟨_, hix, _⟩ | ⟨_, n, hn, _, e'⟩
+        · rw [← e] at hix
+          exact hxS (.inl (hdis x k i hix hik ▸ hk))
+        · have := idStr_inj e'; omega
+      · omega
+    · have hfo := fileOk_copyGeneric hdst ho hc
+      have := hfo.lt k ((node?_isSome_iff g' k).mp (node?_isSome_of_getAttr hi))
+      omega
+  · intro k hk i hi
+    rcases hid k i hi with ⟨_, _, j, _, e⟩ | ⟨_, n, _, _, e⟩
+    · exact ⟨j, e, k, hk, e ▸ hi⟩
+    · exact ⟨n, e, k, hk, e ▸ hi⟩
+
+/-- **independent (histories, source's side)**: any history of calls on the source sub-graph leaves the
+copy and every other node of the file as it was -/
+theorem independent_history_source_side (hdst : FileOk dst) (ho : owner ∈ keys dst) (hobj : obj ∈ keys dst)
+    (hO : ¬ ReachF dst obj owner) (hC : ¬ ReachF dst obj (destC dst owner cls))
+    (hc : copyGeneric dst dst owner cls obj name false keepId = .ok (g', root))
+    (gd : Bool) (hgd : gd = true → keepId = false ∧ IdsBelow dst ∧ IdsDistinct dst) (ops : List Op)
+    (ha : AddressedAll (SourceSide dst obj g') gd g' ops) :
+    LocalUpd (SourceSide dst obj g') g'.nextId g' (run g' ops) := by
+  apply lu_run (A := fun j => ∃ x, ¬ SourceSide dst obj g' x ∧ g'.entityId x = some (idStr j)) ops
+    (sourceSideInv_after_copy hdst ho hobj hO hC hc) _ ha
+  intro h
+  obtain ⟨hk, hb, hdis⟩ := hgd h
+  subst hk
+  exact idInv_source_side hdst ho hobj hb hdis hc
+
+/-- in particular every node of the copy is exactly as it was: same attributes, same links -/
+theorem independent_history_copy_unchanged (hdst : FileOk dst) (ho : owner ∈ keys dst) (hobj : obj ∈ keys dst)
+    (hO : ¬ ReachF dst obj owner) (hC : ¬ ReachF dst obj (destC dst owner cls))
+    (hc : copyGeneric dst dst owner cls obj name false keepId = .ok (g', root))
+    (gd : Bool) (hgd : gd = true → keepId = false ∧ IdsBelow dst ∧ IdsDistinct dst) (ops : List Op)
+    (ha : AddressedAll (SourceSide dst obj g') gd g' ops) (k' : Nat) (hk' : IsNew dst dst owner cls obj k') :
+    SameNode g' (run g' ops) k' := by
+  have h := independent_history_source_side hdst ho hobj hO hC hc gd hgd ops ha
+  have hout : ∀ k, IsNew dst dst owner cls obj k → ¬ SourceSide dst obj g' k := by
+    intro k hk hs
+    have hge := new_ge hk
+    rcases hs with hs | hs
+    · have := hdst.lt k (reach_keys hdst hobj hs)
+      have := nextKey_le_ensureGroup dst owner cls
+      unfold destG at hge; omega
+    · rw [nextKey_result hc] at hs; omega
+  exact h.same (hout k' hk') (fun l hl => hout l.2 (copy_closed hdst hc k' hk' l hl))
 
 end
 
@@ -1016,13 +1169,14 @@ example : (copyGeneric oneArrayFile oneArrayFile 2 "data_arrays" 4 "a2" false fa
 
 /-! ### the hypotheses hold for the files the API builds
 
-`FileOk dst` (all theorems), `IdsBelow dst` (`independent_history` with deletions) and "the source
+`FileOk dst` (all theorems), `IdsBelow dst` / `IdsDistinct dst` (`independent_history*` with deletions) and "the source
 carries an id" (`*_source*` theorems) are facts of every graph reachable from the empty file through
 the API (`ReachableFresh`: any history of `Store.Op`s under the `uuid4` freshness proviso; the
 well-formedness invariant `WF` of `Lemmas/StoreWF*.lean`). -/
 
-theorem reachable_file_ok {g : Graph} (h : ReachableFresh g) : FileOk g ∧ IdsBelow g ∧ 0 ∈ keys g :=
-  ⟨⟨h.wf.keys_lt, h.wf.target_exists⟩, h.wf.ids_wf, h.wf.root⟩
+theorem reachable_file_ok {g : Graph} (h : ReachableFresh g) :
+    FileOk g ∧ IdsBelow g ∧ IdsDistinct g ∧ 0 ∈ keys g :=
+  ⟨⟨h.wf.keys_lt, h.wf.target_exists⟩, h.wf.ids_wf, h.wf.ids_distinct, h.wf.root⟩
 
 /-- every entry of every container of such a file (every block, array, frame, tag, multi-tag, section,
 property …) carries an id -/
@@ -1044,7 +1198,7 @@ def copyHistory : List Op :=
    .del [.name "data", .name "b2"] "data_arrays" (.pos 0)]
 
 /-- every call of it is addressed to the side `≥ 8` in the state it is made in -/
-example : AddressedAll 8 true copiedFile copyHistory :=
+example : AddressedAll (fun k => 8 ≤ k) true copiedFile copyHistory :=
   ⟨⟨_, rfl, by decide⟩, .inl rfl, ⟨⟨_, rfl, by decide⟩, trivial⟩, .inl rfl, trivial⟩
 
 /-- it changes the copy (the copied block loses its array, the copied tag its reference to it) and
